@@ -32,7 +32,16 @@ func breakLayout(r *Rng, l Layout) ([]rawArch, string) {
 	}
 	k := len(as)
 	i := r.Intn(k)
-	switch r.Intn(15) {
+	switch r.Intn(16) {
+	case 15:
+		// the 31-bit retention limit exactly: 2^31-1 is prime, so the only layouts whose retention
+		// is the largest representable one are single archives of one point (or of step 1)
+		// (a step is an int32 in the Go API: a retention of 2^31 or more needs two points)
+		R := []int64{1<<31 - 2, 1<<31 - 1, 1 << 31, 1<<31 + 2, 1<<31 - 1, 1<<31 - 1}[r.Intn(6)]
+		if R >= 1<<31 || (r.Chance(1, 4) && R%2 == 0) {
+			return []rawArch{{R / 2, 2}}, "retention-at-2^31-boundary"
+		}
+		return []rawArch{{R, 1}}, "retention-at-2^31-boundary"
 	case 14:
 		// every pairwise rule holds, every archive alone is below 4 GiB and every retention below
 		// 2^31 s, but together the archives pass 2^32 bytes (once or more): the 32-bit offsets
